@@ -1,4 +1,4 @@
 From Coq Require Extraction.
 From Coq Require Import ExtrOcamlBasic.
 From RM Require Import C18.Driver.
-Extraction "c18_model.ml" run_case run_read run_writes.
+Extraction "c18_model.ml" run_case run_read run_writes run_decode.
